@@ -100,6 +100,15 @@ def generate(seed: int, index: int, tier: str) -> dict:
                                             "trackers": [{"what": "last", "tol": None, "sources": [0]}]}}]
         scn["nested_shared_scaler"] = True
         scn["stratum"] = "nested"
+    elif rng.random() < 0.3:
+        # every part of the configuration is an object the user built once and uses for the configuration of two
+        # steps: the second step works with the same (user-domain) bounds and rows as the first
+        import copy as _copy
+
+        scn["plan"]["steps"].append(_copy.deepcopy(st))
+        scn["plan"]["trackers"][0]["sources"] = [0, 1]
+        scn["subconfig_objects"] = True
+        scn["stratum"] = "settings-objects-used-twice"
     return scn
 
 
